@@ -126,7 +126,10 @@ def run(chk):
         cases = c03.gen_cases(chk, chk.tier)
         order_hist(chk, cases)
         bad += c03.compare(chk, core, cases, "derivs")
-        bad += [(c, "published model: " + m) for c, m in c03.compare(chk, core, cases, "spec_derivs")]
+        # the extracted published model is super-linear in the grain count (16000 grains: 13 s; 100000: > 1 h)
+        spec_cases = [c for c in cases if c["ng"] <= 20000]
+        chk.cov["spec_model_max_grains"] = max(c["ng"] for c in spec_cases)
+        bad += [(c, "published model: " + m) for c, m in c03.compare(chk, core, spec_cases, "spec_derivs")]
         small = [c for c in cases if c["ng"] <= 3]
         bad += c03.compare(chk, core, small, "kderivs")
         # compiled vs interpreted
@@ -148,7 +151,7 @@ def run(chk):
                 if not okc:
                     bad.append((c, f"compiled vs interpreted differ at component {idx}: {a[idx]!r} vs {b[idx]!r}"))
         chk.cov["compiled_vs_interpreted_cases"] = nint
-        chk.cov["traces_validated_against_impl"] = 2 * len(cases) + len(small) + nint
+        chk.cov["traces_validated_against_impl"] = len(cases) + len(spec_cases) + len(small) + nint
     chk.cov["disagreements"] = len(bad)
     if ok and not bad:
         return
